@@ -16,6 +16,19 @@ CLAIMED = {
             'background) against a hand-written architectural bit-position table. Exhaustive on the small-width part, sampled above it.',
             'Trusted: vf/ref/bits.py and vf/ref/fields.py as readings of DDI 0406C.', 'DESIGN.md section 5 C17'),
 }
+CLAIMED['C16'] = ('E5 stateful',
+    'stateful model-based property testing (Hypothesis rule-based machine) against an in-memory byte model',
+    'Generated device layouts and read/write histories on MemoryControllerHub are compared after every step with a per-device byte-array '
+    'model and the first-match rule (lengths, every byte, read values, no host exception); plus a deterministic boundary sweep. '
+    'Exploration only: the space of layouts x histories is sampled, with the device-end and overlap classes forced by construction.',
+    'Trusted: the in-memory model in vf/props/c16.py; RAM is the only device type.', 'DESIGN.md section 5 C16')
+CLAIMED['C18'] = ('E4 totality',
+    'exhaustive enumeration of 16-bit encodings + random/corpus-seeded fuzzing of words and programs with a validity oracle',
+    'emulate_cycle() is run on every 16-bit Thumb halfword in every IT position, on random and test-suite-derived ARM / 32-bit Thumb words and '
+    'on random multi-step programs, in generated valid states on ten configurations (arch 4..7, PMSA/VMSA, security, LPAE, virtualization), stock '
+    'and with the mock hooks implemented; any escaping exception other than NotImplementedError from a documented hook is a violation, a '
+    'deterministic hub-access budget catches hangs. Exhaustive for 16-bit words per (config, IT position); sampled for 32-bit words.',
+    'Trusted: the list of documented not-implemented sites (DESIGN.md appendix A.7); states are valid per section 3.2 rule 5.', 'DESIGN.md section 5 C18')
 
 NOT_YET = {}
 
@@ -55,6 +68,8 @@ def main():
         'engines': [
             {'name': 'E1 stepdiff', 'path': 'vf/props', 'serves_properties': [], 'kind_free_text': 'differential stepping of emulate_cycle against the reference model vf/ref'},
             {'name': 'E3 unitdiff', 'path': 'vf/props/c17.py', 'serves_properties': ['C17'], 'kind_free_text': 'direct calls of helpers against independent re-implementations'},
+            {'name': 'E4 totality', 'path': 'vf/props/c18.py', 'serves_properties': ['C18'], 'kind_free_text': 'validity-predicate fuzzing of emulate_cycle'},
+            {'name': 'E5 stateful', 'path': 'vf/props/c16.py', 'serves_properties': ['C16'], 'kind_free_text': 'Hypothesis rule-based state machines against in-memory models'},
         ],
         'checks': checks,
         'not_applicable': na,
